@@ -366,3 +366,152 @@ class Cast(Contract):
 
 
 CONTRACTS += [Cast()]
+
+
+# ============================================================================= command-line front end: _parse_single, parse_simple, parse_filter_arg
+
+
+class SArg(Sym):
+    """one command-line token; what the recognisers (_is_json_like, _is_regex) say about it is decided symbolically"""
+
+    def __init__(self, name):
+        self.name = name
+
+    def sym_hashable(self):
+        return True
+
+    def sym_isinstance(self, ex, cls):
+        return cls in (str, object)
+
+    def sym_eq(self, ex, other):
+        if other == "!":
+            return SBool(z3.Bool(f"{self.name}_is_bang"))
+        raise Unsupported("token comparison")
+
+    def sym_is(self, ex, other):
+        if other is None:
+            return False
+        raise Unsupported("token identity")
+
+    def sym_getitem(self, ex, k):
+        if isinstance(k, slice) and k.start == 1 and k.stop == -1 and k.step is None:
+            return ("without-slashes", self)
+        raise Unsupported("token subscript")
+
+    def __repr__(self):
+        return self.name
+
+
+def _recognisers(ctx):
+    ctx.callee_contracts[f"{FP}._is_json_like"] = lambda interp, b: SBool(z3.Bool(f"{b['q'].name}_is_json_like")) if isinstance(b["q"], SArg) else (_ for _ in ()).throw(Unsupported("recogniser argument"))
+    ctx.callee_contracts[f"{FP}._is_regex"] = lambda interp, b: SBool(z3.Bool(f"{b['q'].name}_is_regex")) if isinstance(b["q"], SArg) else (_ for _ in ()).throw(Unsupported("recogniser argument"))
+    ctx.callee_contracts[f"{FP}._parse_json"] = lambda interp, b: ("json-of", b["q"])
+    ctx.callee_contracts[f"{FP}._cast"] = lambda interp, b: ("cast-of", b["x"])
+
+
+class ParseSingle(Contract):
+    target = f"{FP}._parse_single"
+    properties = ("C07",)
+
+    def cases(self):
+        return [{"value": "given"}, {"value": "none"}]
+
+    def make_ctx(self, case):
+        ctx = super().make_ctx(case)
+        _recognisers(ctx)
+        return ctx
+
+    def setup(self, interp, case):
+        k, v = SArg("key"), (SArg("value") if case["value"] == "given" else None)
+        return [k] + ([v] if v is not None else []), {}, {"k": k, "v": v}
+
+    def post(self, interp, case, pre, outcome):
+        ex, k, v = interp.ex, pre["k"], pre["v"]
+        B = lambda n: z3.Bool(n)
+        if outcome[0] == "raise":
+            ex.oblige(self.oname("raises:ValueError_iff_the_key_is_a_JSON_expression"), z3.And(z3.BoolVal(isinstance(outcome[1], ValueError)), B("key_is_json_like")), note=repr(outcome[1]))
+            return
+        r = outcome[1]
+        ok = isinstance(r, tuple) and len(r) == 2 and r[0] is k
+        ex.oblige(self.oname("ensures:the_key_is_kept"), z3.And(z3.BoolVal(ok), z3.Not(B("key_is_json_like"))))
+        if not ok:
+            return
+        val = r[1]
+        if v is None:
+            ex.oblige(self.oname("ensures:a_key_without_value_asks_for_existence"), z3.BoolVal(val == {"$exists": True}))
+            return
+        bang, js, rx = B("value_is_bang"), B("value_is_json_like"), B("value_is_regex")
+        kind = ("exists" if val == {"$exists": True} else "json" if val == ("json-of", v) else
+                "regex" if isinstance(val, dict) and list(val) == ["$regex"] and val["$regex"] == ("without-slashes", v) else "cast" if val == ("cast-of", v) else "other")
+        ex.oblige(self.oname("ensures:value_!_is_existence,_a_JSON_expression_is_parsed,_/re/_is_$regex_without_the_slashes,_anything_else_is_cast"),
+                  z3.And(z3.BoolVal(kind != "other"), z3.BoolVal(kind == "exists") == bang, z3.BoolVal(kind == "json") == z3.And(z3.Not(bang), js),
+                         z3.BoolVal(kind == "regex") == z3.And(z3.Not(bang), z3.Not(js), rx)), note=repr(val))
+
+
+class ParseSimple(Contract):
+    """bound stated: token lists of length 0..5 (the function pairs tokens by position; every length class mod 2 and the empty list are covered)"""
+    target = f"{FP}.parse_simple"
+    properties = ("C07",)
+
+    def cases(self):
+        return [{"n": n} for n in range(6)]
+
+    def make_ctx(self, case):
+        ctx = super().make_ctx(case)
+        ctx.callee_contracts[f"{FP}._parse_single"] = lambda interp, b: ("single", b["key"], b.get("value"))
+        return ctx
+
+    def setup(self, interp, case):
+        toks = [SArg(f"t{i}") for i in range(case["n"])]
+        interp.ctx.ghost["out"] = []
+        return [toks], {}, {"toks": toks}
+
+    def yield_hook(self, interp, case, pre):
+        return lambda v: interp.ctx.ghost["out"].append(v)
+
+    def post(self, interp, case, pre, outcome):
+        ex, toks, out = interp.ex, pre["toks"], interp.ctx.ghost["out"]
+        want = [("single", toks[i], toks[i + 1] if i + 1 < len(toks) else None) for i in range(0, len(toks), 2)]
+        ok = outcome[0] == "return" and len(out) == len(want) and all(o[0] == "single" and o[1] is w[1] and o[2] is w[2] for o, w in zip(out, want))
+        ex.oblige(self.oname("ensures:tokens_are_paired_by_position_(key,_value),_a_trailing_key_has_no_value"), z3.BoolVal(bool(ok)), note=repr(out))
+
+
+class ParseFilterArg(Contract):
+    target = f"{FP}.parse_filter_arg"
+    properties = ("C07",)
+
+    def cases(self):
+        return [{"n": n} for n in ("None", 0, 1, 2, 3)]
+
+    def make_ctx(self, case):
+        ctx = super().make_ctx(case)
+        _recognisers(ctx)
+        ctx.callee_contracts[f"{FP}._parse_single"] = lambda interp, b: (b["key"], ("value-of", b["key"], b.get("value")))
+        ctx.callee_contracts[f"{FP}.parse_simple"] = lambda interp, b: [(("pair", i), ("val", i)) for i in range(2)] if interp.ctx.ghost.setdefault("simple", b["tokens"]) is not None else None
+        ctx.callee_contracts["signac._utility._print_err"] = lambda interp, b: None
+        import json
+        ctx.externals[json.dumps] = lambda interp, v, **k: "…"
+        return ctx
+
+    def setup(self, interp, case):
+        args = None if case["n"] == "None" else [SArg(f"a{i}") for i in range(case["n"])]
+        return [args], {}, {"args": args}
+
+    def post(self, interp, case, pre, outcome):
+        ex, g, args = interp.ex, interp.ctx.ghost, pre["args"]
+        if outcome[0] != "return":
+            ex.oblige(self.oname("raises:nothing_of_its_own"), False, note=repr(outcome[1]))
+            return
+        r = outcome[1]
+        if not args:
+            ex.oblige(self.oname("ensures:no_arguments_mean_no_filter"), z3.BoolVal(r is None))
+        elif len(args) == 1:
+            js = z3.Bool("a0_is_json_like")
+            is_json = r == ("json-of", args[0])
+            is_single = isinstance(r, dict) and list(r.items()) == [(args[0], ("value-of", args[0], None))]
+            ex.oblige(self.oname("ensures:one_argument_is_a_whole_JSON_filter_or_a_single_key"), z3.And(z3.BoolVal(is_json or is_single), z3.BoolVal(is_json) == js), note=repr(r))
+        else:
+            ex.oblige(self.oname("ensures:several_arguments_are_key_value_pairs"), z3.BoolVal(g.get("simple") is args and r == {("pair", 0): ("val", 0), ("pair", 1): ("val", 1)}), note=repr(r))
+
+
+CONTRACTS += [ParseSingle(), ParseSimple(), ParseFilterArg()]
